@@ -145,9 +145,9 @@ CONTRACTS[(PATH, 'PageLayout._gen_logits')] = Contract(
     fields={'regions': 'py', 'lines': 'py', 'logits': 'opt:val', 'characters': 'opt:val', 'logit_coords': 'opt:val', 'id': 'val'},
     ghosts={'pyinit:regions': _regions, 'pyinit:lines': _lines, 'seqvars': {'logits': ValCodec, 'characters': ValCodec, 'logit_coords': ValCodec}},
     # the three `+=` of per-line tuples and the dictionary construction are replaced by "no effect on the exception clause"
-    replace={'logits += [(line.id, line.logits) for line in ': [],
-             'characters += [(line.id, line.characters) for line in ': [],
-             'logit_coords += [(line.id, line.logit_coords) for line in ': [],
+    replace={('logits += [(line.id, line.logits) for line in ', 'logits.extend([(line.id, line.logits) for line in '): [],
+             ('characters += [(line.id, line.characters) for line in ', 'characters.extend([(line.id, line.characters) for line in '): [],
+             ('logit_coords += [(line.id, line.logit_coords) for line in ', 'logit_coords.extend([(line.id, line.logit_coords) for line in '): [],
              'logits_dict = dict(logits)': ['logits_dict = 0'], "logits_dict['line_characters'] = dict(characters)": [], "logits_dict['logit_coords'] = dict(logit_coords)": []},
     # unless the caller allows it, a line without logits / character table / frame window raises instead of being written
     raises={'Exception': 'not missing_line_logits_ok and ' + _MISSING},
